@@ -2,7 +2,8 @@
 
 (1) the sequence grid and all of U written through File in processes whose heap is pre-filled (and re-poisoned on
 free) with {none, 00, ff, aa, 55}: file bytes must be identical across patterns; (2) every session written twice in
-one process with other sessions in between: identical; (3) across schedules: C07 compares the written file with the
+one process with other sessions in between, and again in processes that run the configurations in reverse order and in a
+different split (different earlier activity): identical; (3) across schedules: C07 compares the written file with the
 reference assembly under every explored schedule; (4) encodings of all of U and of default-constructed objects in
 builds with stack variables auto-initialised to zero vs to a pattern (clang -ftrivial-auto-var-init) and in the g++
 build: identical; (5) bytes that come from neither a member nor a container (alignment padding, union filler) are
@@ -67,7 +68,18 @@ def main(argv):
         di += d
         samples = samples or s
         runs["heap=" + name] = F.fhashes(raw)
-    viol += compare(runs, "file bytes depend on previous heap contents")
+    # (2b) the same sessions in processes that enumerate the configurations in reverse order (and in a different split),
+    # so each session follows different earlier sessions: process-wide state that survives a session shows here
+    jobs = F.jobs(exe, ["set=alpha", "maxlen=2", "readback=0", "poison=-1", "order=rev"] + cfgs, 5 if quick else 11)
+    jobs += F.jobs(exe, ["set=universe", "readback=0", "poison=-1", "order=rev"] + ucfg, 3)
+    js, raw = F.run_raw(jobs, timeout=1500)
+    v, i, e, d, s = enumcheck.collect("C14", js, "h_file", "sched", accept_props={"C14", "C06", "C10"})
+    viol += v
+    infra += i
+    ev += e
+    di += d
+    runs["order=reversed"] = F.fhashes(raw)
+    viol += compare(runs, "file bytes depend on previous heap contents or on earlier sessions in the process")
     # (4) stack auto-init builds + g++ build, codec level
     enc = {}
     for variant in ("plain", "plain-init0", "plain-initpat"):
